@@ -341,7 +341,7 @@ func runCheck(id, tier string, seed int, overlay map[string][]byte, quiet bool) 
 		if len(driftWhy) > 0 {
 			if h := harnessFor(fr.Name); h != nil {
 				hr := runHarness(h, fr.Name, overlay)
-				if hr.Reproduced || (hr.Passed && h.StandIn) {
+				if hr.Reproduced || (hr.Passed && h.StandIn && hasProp(h.Props, id)) {
 					f := filepath.Join(replayDir, mangle(fr.Name)+"_bounded_standin.json")
 					rep := map[string]interface{}{"property": id, "obligation": fr.Name + "/bounded-standin[" + h.Name + "]", "contract_drift": driftWhy,
 						"reason": "the contract of this function no longer matches the code, so its obligations could not be generated; the bounded witness search " + h.Name + " on the real code stands in for them",
@@ -359,7 +359,9 @@ func runCheck(id, tier string, seed int, overlay map[string][]byte, quiet bool) 
 					}
 					continue
 				}
-				if hr.Passed {
+				if hr.Passed && h.StandIn {
+					driftWhy = append(driftWhy, "witness search "+h.Name+" found no failing input ("+hr.Scenarios+" scenarios), but its reference model does not cover "+id)
+				} else if hr.Passed {
 					driftWhy = append(driftWhy, "witness search "+h.Name+" found no failing input ("+hr.Scenarios+" scenarios), but a scripted concurrency harness does not stand in for a proof")
 				} else {
 					// the search itself could not be built or run on this tree: report the drift
